@@ -94,6 +94,113 @@ def systematic(ids):
     return progs
 
 
+def signatures(maxlen=4):
+    """every legal Python parameter list of <= maxlen entries over positional / positional-with-default / *args /
+    keyword-only required / keyword-only with default (in every order) / **kw.  Keyword-only parameters only after
+    *args (the property's grammar; a bare `*` is not part of it)."""
+    import itertools
+    out = []
+    for npos in range(3):
+        for nopt in range(3):
+            for star in (0, 1):
+                for nk in (range(3) if star else [0]):
+                    for kinds in itertools.product(("kwo", "kwopt"), repeat=nk):
+                        for ds in (0, 1):
+                            if not 1 <= npos + nopt + star + nk + ds <= maxlen:
+                                continue
+                            ps = [dict(n="p%d" % (i + 1), kind="pos", dv="-") for i in range(npos)]
+                            ps += [dict(n="q%d" % (i + 1), kind="opt", dv="dq%d" % (i + 1)) for i in range(nopt)]
+                            if star:
+                                ps.append(dict(n="a", kind="star", dv="-"))
+                            ps += [dict(n="k%d" % (i + 1), kind=k, dv="dk%d" % (i + 1) if k == "kwopt" else "-") for i, k in enumerate(kinds)]
+                            if ds:
+                                ps.append(dict(n="kw", kind="dstar", dv="-"))
+                            out.append(ps)
+    return out
+
+
+def call_shapes(ps):
+    """positional counts 0..n+1 x every subset of the named parameters passed by keyword x an extra keyword."""
+    import itertools
+    named = [p["n"] for p in ps if p["kind"] in ("pos", "opt", "kwo", "kwopt")]
+    npp = len([p for p in ps if p["kind"] in ("pos", "opt")])
+    shapes = []
+    for np_ in range(npp + 2):
+        for r in range(len(named) + 1):
+            for sub in itertools.combinations(named, r):
+                for extra in (False, True):
+                    shapes.append((np_, sub, extra))
+    return shapes
+
+
+def _probably_binds(ps, shape):
+    """packing aid only (which calls can share a program without the first TypeError hiding the rest); the
+    expectation, TypeError included, always comes from Bind in Render.tla."""
+    np_, sub, extra = shape
+    pp = [p for p in ps if p["kind"] in ("pos", "opt")]
+    has = {p["kind"] for p in ps}
+    if np_ > len(pp) and "star" not in has:
+        return False
+    filled = {p["n"] for p in pp[:np_]}
+    if filled & set(sub) or (extra and "dstar" not in has):
+        return False
+    return all(p["n"] in filled or p["n"] in sub for p in ps if p["kind"] in ("pos", "kwo"))
+
+
+def binding_family(rng, full):
+    """programs that print every parameter of a def / call body after calls of every shape, through the four routes:
+    by name (or self./local.), capture(), string concatenation, body(**args) of a call with content."""
+    progs = []
+    noargs = dict(pos=[], kw=[])
+    for ps in signatures():
+        n = iter(range(1, 100000))
+        shapes = call_shapes(ps)
+        good = [sh for sh in shapes if _probably_binds(ps, sh)]
+        bad = [sh for sh in shapes if not _probably_binds(ps, sh)]
+        if not full:
+            rng.shuffle(good)
+            rng.shuffle(bad)
+            good, bad = good[:24], bad[:6]
+        show = []
+        for p in ps:
+            show += [dict(k="lit", t="<" + p["n"]), dict(k="val", v=p["n"], vk=p["kind"])]
+        show = [dict(k="expr", parts=show + [dict(k="lit", t=">")])]
+
+        def args_of(sh):
+            np_, sub, extra = sh
+            kw = {nm: "v%d" % next(n) for nm in sub}
+            if extra:
+                kw["zz"] = "v%d" % next(n)
+            return dict(pos=["v%d" % next(n) for _ in range(np_)], kw=[dict(n=k, nt=k + ":", v=kw[k]) for k in sorted(kw)])
+
+        def program(shs):
+            defs = {"d0": dict(flags=set(), fm=0, dec=False, dm=0, blk=False, params=ps, bsig=ps, nested=[], home=0, body=show)}
+            top = ["d0"]
+            body = []
+            for j, sh in enumerate(shs):
+                a = args_of(sh)
+                route = (j + len(ps)) % 4
+                if route == 0:
+                    body.append(dict(k="expr", parts=[dict(k="call", d="d0", via="name", args=a)]))
+                elif route == 1:
+                    body.append(dict(k="expr", parts=[dict(k="cap", d="d0", args=a)]))
+                elif route == 2:
+                    body.append(dict(k="expr", parts=[lit("t%d" % next(n)), dict(k="call", d="d0", via="name", args=a), lit("t%d" % next(n))]))
+                else:       # the callee passes the arguments to caller.body(); the body has this signature
+                    key = "c%d" % next(n)
+                    defs[key] = dict(flags=set(), fm=0, dec=False, dm=0, blk=False, params=[], bsig=ps, nested=[], home=0,
+                                     body=[dict(k="expr", parts=[dict(k="cbody", args=a)])])
+                    top.append(key)
+                    body.append(dict(k="callc", parts=[dict(k="call", d=key, via="name", args=noargs)], body=show, bparams=ps, defs=[]))
+                body.append(dict(k="text", t="t%d" % next(n)))
+            return dict(defs=defs, incs=[], body=body, eh=False, fe=False, top=top, el="on")
+        for i in range(0, len(good), 16):
+            progs.append(program(good[i:i + 16]))
+        for sh in bad:
+            progs.append(program([sh]))
+    return progs
+
+
 def check(run):
     thorough = run.thorough
     maxraise = 10 if not thorough else 14
@@ -101,6 +208,11 @@ def check(run):
     fam = systematic(None)
     rc.check_batch(run, fam, 16, "systematic", coverage=True)
     run.extra["systematic_programs"] = len(fam)
+    # ---- 1b. argument binding: every signature x call shapes x call routes
+    bind = binding_family(run.rng, thorough)
+    for i in range(0, len(bind), 600):
+        rc.check_batch(run, bind[i:i + 600], 0, "binding-%d" % (i // 600), coverage=True)
+    run.extra["binding_programs"] = len(bind)
     # ---- 2. seeded random programs; nesting to depth 4
     n_rand = 260 if not thorough else 3000
     prof = rc.profile(w=dict(expr=6, callc=5, block=2, **{"while": 1, "with": 1}), depth=3, p_calldefs=0.4)
